@@ -5,6 +5,7 @@ import (
 	"context"
 	"errors"
 	"fmt"
+	"github.com/ipld/go-ipld-prime/zzsimhook"
 	"os"
 	"path/filepath"
 	"sync/atomic"
@@ -125,6 +126,9 @@ func (S05) RunTape(t *sim.Tape, st *sim.Stats, keepLog bool) *sim.Outcome {
 	s.Log.Keep = keepLog
 	s.MaxSteps = 400000
 	s.MaxQ = []int{0, 3, 12}[t.Choice(3, "cfg.maxq")]
+	zzsimhook.Yield = s.Yield // function-entry yields inside linking and storage packages (build overlay)
+	zzsimhook.YieldBlocked = s.YieldBlocked
+	defer func() { zzsimhook.Yield, zzsimhook.YieldBlocked = nil, nil }()
 
 	// ---- link system ----
 	private := t.Bool("cfg.private_registry")
